@@ -117,6 +117,7 @@ struct E {
     tm: Option<u8>,
     tm_ts: Option<Timestamp>,
     tok: [u8; 16],
+    tokw: u128,
 }
 
 impl E {
@@ -150,6 +151,7 @@ impl E {
             tm: if has_tm { Some(tm) } else { None },
             tm_ts: if has_tm { Some(grid.at(tm)) } else { None },
             tok,
+            tokw,
         }
     }
     fn id(&self) -> connection::LocalId {
@@ -199,7 +201,9 @@ struct Pre {
     next: u32,
     rpt: u32,
     limit: u8,
+    rotate: bool,
     warm: bool,
+    grid: Grid,
 }
 
 impl Pre {
@@ -247,7 +251,7 @@ impl Pre {
             }
             i += 1;
         }
-        ok && self.active() <= self.limit
+        ok && self.active() <= self.limit && self.next >= 1
     }
 }
 
@@ -350,18 +354,22 @@ fn any_registry(n: usize) -> (LocalIdRegistry, Pre) {
         es[i] = E::any(ID_LEN[i], &grid);
         i += 1;
     }
+    registry_from(n, es, grid)
+}
+
+fn registry_from(n: usize, es: [E; MAXN], grid: Grid) -> (LocalIdRegistry, Pre) {
     let next: u32 = kani::any();
     let rpt: u32 = kani::any();
     let limit: u8 = kani::any();
     let rotate: bool = kani::any();
     let warm: bool = kani::any();
-    let pre = Pre { n, e: es, next, rpt, limit, warm };
+    let pre = Pre { n, e: es, next, rpt, limit, rotate, warm, grid };
     kani::assume(pre.valid());
 
     let mut reg = new_registry(rotate);
 
     // the SmallVec is built in one piece with a concrete length: building it with push() leaves CBMC
-    // with a symbolic container shape (measured: 39 M clauses for on_timeout on 2 entries vs 2 M on 1)
+    // with a symbolic container shape (every later loop over it is then unwound to the bound)
     let buf: [LocalIdInfo; 5] = [
         pre.e[0].info(),
         pre.e[if n > 1 { 1 } else { 0 }].info(),
@@ -400,7 +408,7 @@ fn any_registry(n: usize) -> (LocalIdRegistry, Pre) {
 
 /// INV on the real registry
 fn assert_inv(reg: &LocalIdRegistry) {
-    assert!(reg.retire_prior_to <= reg.next_sequence_number);
+    assert!(reg.retire_prior_to <= reg.next_sequence_number && reg.next_sequence_number >= 1);
     let mut active = 0u8;
     let mut prev: Option<u32> = None;
     for info in reg.registered_ids.iter() {
@@ -424,8 +432,136 @@ fn assert_inv(reg: &LocalIdRegistry) {
     assert!(active <= reg.active_connection_id_limit);
 }
 
+fn token_of(info: &LocalIdInfo) -> u128 {
+    u128::from_le_bytes(info.stateless_reset_token.into_inner())
+}
+
 fn unchanged(info: &LocalIdInfo, e: &E) -> bool {
-    info.sequence_number == e.seq && info.id == e.id() && info.status == e.status() && info.retirement_time == e.rt_ts
+    info.sequence_number == e.seq
+        && info.id == e.id()
+        && info.status == e.status()
+        && info.retirement_time == e.rt_ts
+        && token_of(info) == e.tokw
+}
+
+/// the ID is (still) routed to this connection / no longer routed (native build: real map)
+#[cfg(not(kani))]
+fn mapped(reg: &LocalIdRegistry, id: &connection::LocalId) -> bool {
+    reg.state.lock().unwrap().local_id_map.get(id) == Some(reg.internal_id)
+}
+
+// ================================================================ C13-O2a: interest + registration
+fn register_body(n: usize) {
+    let (mut reg, pre) = any_registry(n);
+    let active = pre.active();
+    let room = pre.limit - active;
+
+    // ---- how many new IDs the registry asks for: exactly up to the peer's limit
+    let interest = reg.connection_id_interest();
+    if room > 0 {
+        assert!(interest == connection::id::Interest::New(room));
+    } else {
+        assert!(interest == connection::id::Interest::None);
+    }
+    kani::cover!(room == 0, "at the limit: no new ID wanted");
+    kani::cover!(room == 2, "two IDs wanted");
+
+    // ---- the caller (ConnectionImpl::on_new_connection_id) registers only what was asked for
+    kani::assume(room > 0);
+    kani::assume(pre.next < u32::MAX);
+    let idw: u64 = kani::any();
+    let w = idw.to_le_bytes();
+    let nb: [u8; 5] = [w[0], w[1], w[2], w[3], w[4]];
+    let nl = ID_LEN[n];
+    let new_id = connection::LocalId::try_from_bytes(&nb[..nl]).unwrap();
+    let tokw: u128 = kani::any();
+    let has_exp: bool = kani::any();
+    let g = any_grid();
+    // expiration = retirement time + EXPIRATION_BUFFER
+    let expiration = if has_exp { Some(pre.grid.at(g) + D30) } else { None };
+    let map_free: bool = kani::any();
+    let mut dup = false;
+    let mut i = 0;
+    while i < n {
+        let e = &pre.e[i];
+        if e.idl == nl {
+            let mut eq = true;
+            let mut b = 0;
+            while b < 5 {
+                if b < nl && e.idb[b] != nb[b] {
+                    eq = false;
+                }
+                b += 1;
+            }
+            dup |= eq;
+        }
+        // caller obligations: a fresh reset token (debug-asserted by the registry) and, for I7, a
+        // lifetime that does not shrink
+        kani::assume(e.tokw != tokw);
+        if has_exp && e.seq != 0 {
+            kani::assume(matches!(e.rt, Some(t) if GRID_US[t as usize] <= GRID_US[g as usize]));
+        }
+        i += 1;
+    }
+    #[cfg(kani)]
+    unsafe {
+        MAP_FREE = map_free;
+    }
+    #[cfg(not(kani))]
+    if !map_free && !dup {
+        // another connection of the endpoint owns this ID
+        let mut gen = InternalConnectionIdGenerator::new();
+        let _ = gen.generate_id();
+        reg.state.lock().unwrap().local_id_map.try_insert(&new_id, gen.generate_id()).unwrap();
+    }
+
+    let r = reg.register_connection_id(&new_id, expiration, stateless_reset::Token::from(tokw.to_le_bytes()));
+
+    let accepted = !dup && map_free;
+    if accepted {
+        assert!(r.is_ok());
+        assert!(reg.registered_ids.len() == n + 1);
+        let info = &reg.registered_ids[n];
+        // consecutive sequence numbers, not yet announced, announced before it counts as usable
+        assert!(info.sequence_number == pre.next);
+        assert!(reg.next_sequence_number == pre.next + 1);
+        assert!(info.id == new_id && token_of(info) == tokw);
+        assert!(info.status == PendingIssuance);
+        assert!(info.retirement_time == if has_exp { Some(pre.grid.at(g)) } else { None });
+        // never more unretired IDs than the peer allows
+        assert!(active + 1 <= pre.limit);
+        // routed to this connection
+        #[cfg(kani)]
+        unsafe {
+            assert!(MAP_INSERTS == 1 && MAP_INSERTED == Some((new_id, reg.internal_id)));
+        }
+        #[cfg(not(kani))]
+        assert!(mapped(&reg, &new_id));
+        // and one ID less is wanted now
+        let after = reg.connection_id_interest();
+        assert!(after == if room > 1 { connection::id::Interest::New(room - 1) } else { connection::id::Interest::None });
+        kani::cover!(room == 1, "the last permitted ID is registered");
+        kani::cover!(has_exp, "ID with a lifetime registered");
+    } else {
+        assert!(r == Err(LocalIdRegistrationError::ConnectionIdInUse));
+        assert!(reg.registered_ids.len() == n);
+        assert!(reg.next_sequence_number == pre.next);
+        #[cfg(kani)]
+        unsafe {
+            // an ID this connection already issued never reaches the endpoint map
+            assert!(MAP_INSERTS == if dup { 0 } else { 1 });
+        }
+        kani::cover!(dup, "ID already issued on this connection refused");
+        kani::cover!(!dup, "ID owned by another connection refused");
+    }
+    let mut i = 0;
+    while i < n {
+        assert!(unchanged(&reg.registered_ids[i], &pre.e[i]));
+        i += 1;
+    }
+    assert!(reg.retire_prior_to == pre.rpt && reg.active_connection_id_limit == pre.limit);
+    assert_inv(&reg);
+    core::mem::forget(reg);
 }
 
 // ================================================================ C13-O2b: on_timeout
@@ -461,17 +597,11 @@ fn timeout_body(n: usize) {
     while i < n {
         let e = &pre.e[i];
         let ready = fired && e.st <= S_ACTIVE && matches!(e.rt, Some(t) if elapsed(t));
-        // (under Kani the removal of expired IDs is cut away by the stub: see C13-O2c for it)
+        // (under Kani the removal of expired IDs is cut away by the stub: C13-O2c decides it)
         let expired = !cfg!(kani) && fired && e.st >= S_RETIRING && matches!(e.tm, Some(t) if elapsed(t));
         if expired {
-            // unregistered from the endpoint-wide map
-            #[cfg(kani)]
-            unsafe {
-                assert!(MAP_REMOVES > removed);
-                assert!(MAP_REMOVED[removed] == Some(e.id()));
-            }
             #[cfg(not(kani))]
-            assert!(reg.state.lock().unwrap().local_id_map.get(&e.id()).is_none());
+            assert!(!mapped(&reg, &e.id()));
             removed += 1;
         } else {
             assert!(reg.registered_ids.len() > k);
@@ -492,7 +622,7 @@ fn timeout_body(n: usize) {
             }
             // still routed to this connection
             #[cfg(not(kani))]
-            assert!(reg.state.lock().unwrap().local_id_map.get(&e.id()) == Some(reg.internal_id));
+            assert!(mapped(&reg, &e.id()));
             k += 1;
         }
         i += 1;
@@ -500,9 +630,9 @@ fn timeout_body(n: usize) {
     assert!(reg.registered_ids.len() == k);
     #[cfg(kani)]
     unsafe {
-        assert!(MAP_REMOVES == removed);
         // expired IDs are looked for exactly when the timer fired, at the current time, after the
         // retirements were applied
+        assert!(MAP_REMOVES == 0);
         assert!(UNREGISTER_CALLS == if fired { 1 } else { 0 });
         if fired {
             assert!(UNREGISTER_AT == Some(now) && UNREGISTER_SAW_RPT == want_rpt);
@@ -514,67 +644,375 @@ fn timeout_body(n: usize) {
     assert!(reg.active_connection_id_limit == pre.limit);
     kani::cover!(!fired, "timer not due: nothing changes");
     kani::cover!(newly_retired >= 1 && want_rpt > pre.rpt, "timeout retires an ID and raises retire_prior_to");
+    kani::cover!(newly_retired >= 1 && want_rpt == pre.rpt, "timeout retires an ID already below retire_prior_to");
     kani::cover!(newly_retired == 2, "two IDs retire in one timeout");
-    kani::cover!(removed >= 1, "an expired ID is unregistered");
-    kani::cover!(removed >= 1 && newly_retired >= 1, "retire and removal in the same timeout");
+    let _ = removed;
     assert_inv(&reg);
     core::mem::forget(reg);
 }
 
-#[cfg_attr(kani, kani::proof)]
-#[cfg_attr(kani, kani::unwind(6))]
-#[cfg_attr(kani, kani::stub(LocalIdMap::try_insert, stub_try_insert))]
-#[cfg_attr(kani, kani::stub(LocalIdMap::remove, stub_remove))]
-#[cfg_attr(kani, kani::stub(LocalIdRegistry::unregister_expired_ids, stub_unregister_expired_ids))]
-fn verif_local_id_timeout_n3() {
-    timeout_body(3);
-}
+// ================================================================ C13-O2c: removal of expired IDs
+// (the part cut out of C13-O2b) concrete status/expiry pattern, everything else symbolic.
+const K_LIVE: u8 = 0; // Active, no retirement time
+const K_GONE_REMOVAL: u8 = 1; // PendingRemoval, removal time elapsed
+const K_GONE_RETIRING: u8 = 2; // PendingRetirementConfirmation(Some(elapsed))
+const K_KEEP_REMOVAL: u8 = 3; // PendingRemoval, removal time ahead
+const K_KEEP_RETIRING: u8 = 4; // PendingRetirementConfirmation(None)
 
+fn expire_body(kinds: [u8; 3]) {
+    let n = 3;
+    let grid = Grid::new();
+    let mut es = [E::any(ID_LEN[0], &grid); MAXN];
+    let mut i = 0;
+    while i < n {
+        let mut e = E::any(ID_LEN[i], &grid);
+        // concrete status and times (no retirement by this timeout, expiry decided by the pattern)
+        e.rt = None;
+        e.rt_ts = None;
+        match kinds[i] {
+            K_LIVE => {
+                e.st = S_ACTIVE;
+            }
+            K_GONE_REMOVAL => {
+                e.st = S_REMOVAL;
+                e.tm = Some(0);
+                e.tm_ts = Some(grid.0[0]);
+            }
+            K_GONE_RETIRING => {
+                e.st = S_RETIRING;
+                e.tm = Some(1);
+                e.tm_ts = Some(grid.0[1]);
+            }
+            K_KEEP_REMOVAL => {
+                e.st = S_REMOVAL;
+                e.tm = Some(2);
+                e.tm_ts = Some(grid.0[2]);
+            }
+            _ => {
+                e.st = S_RETIRING;
+                e.tm = None;
+                e.tm_ts = None;
+            }
+        }
+        es[i] = e;
+        i += 1;
+    }
+    let (mut reg, pre) = registry_from(n, es, grid);
+    let now = now();
 
-// ---- TEMP PROBES
-#[cfg_attr(kani, kani::proof)]
-#[cfg_attr(kani, kani::unwind(6))]
-#[cfg_attr(kani, kani::stub(LocalIdMap::try_insert, stub_try_insert))]
-#[cfg_attr(kani, kani::stub(LocalIdMap::remove, stub_remove))]
-#[cfg_attr(kani, kani::stub(LocalIdRegistry::unregister_expired_ids, stub_unregister_expired_ids))]
-fn verif_probe_registry_new() {
-    let (reg, pre) = any_registry(2);
-    kani::cover!(reg.registered_ids.len() == 2 && pre.rpt > 0, "ran");
+    reg.on_timeout(now);
+
+    let mut k = 0;
+    let mut removed = 0;
+    let mut i = 0;
+    while i < n {
+        let e = &pre.e[i];
+        if kinds[i] == K_GONE_REMOVAL || kinds[i] == K_GONE_RETIRING {
+            // unregistered: no longer routed
+            #[cfg(kani)]
+            unsafe {
+                assert!(MAP_REMOVES > removed && MAP_REMOVED[removed] == Some(e.id()));
+            }
+            #[cfg(not(kani))]
+            assert!(!mapped(&reg, &e.id()));
+            removed += 1;
+        } else {
+            assert!(reg.registered_ids.len() > k);
+            assert!(unchanged(&reg.registered_ids[k], e));
+            #[cfg(not(kani))]
+            assert!(mapped(&reg, &e.id()));
+            k += 1;
+        }
+        i += 1;
+    }
+    assert!(reg.registered_ids.len() == k);
+    #[cfg(kani)]
+    assert!(unsafe { MAP_REMOVES } == removed);
+    assert!(reg.retire_prior_to == pre.rpt && reg.next_sequence_number == pre.next);
+    // the freed slots are offered again
+    let room = pre.limit - pre.active();
+    assert!(reg.connection_id_interest() == if room > 0 { connection::id::Interest::New(room) } else { connection::id::Interest::None });
+    assert_inv(&reg);
     core::mem::forget(reg);
 }
 
-#[cfg_attr(kani, kani::proof)]
-#[cfg_attr(kani, kani::unwind(6))]
-#[cfg_attr(kani, kani::stub(LocalIdMap::try_insert, stub_try_insert))]
-#[cfg_attr(kani, kani::stub(LocalIdMap::remove, stub_remove))]
-#[cfg_attr(kani, kani::stub(LocalIdRegistry::unregister_expired_ids, stub_unregister_expired_ids))]
-fn verif_probe_b() {
-    let (reg, pre) = any_registry(2);
-    let t = reg.timer();
-    kani::cover!(reg.registered_ids.len() == 2 && pre.rpt > 0 && t.is_armed(), "ran");
+// ================================================================ C13-O2d: on_transmit
+fn transmit_body(n: usize, encode: bool) {
+    let (mut reg, pre) = any_registry(n);
+    let c: u8 = kani::any();
+    kani::assume(c < 4);
+    let constraint = match c {
+        0 => transmission::Constraint::None,
+        1 => transmission::Constraint::RetransmissionOnly,
+        2 => transmission::Constraint::CongestionLimited,
+        _ => transmission::Constraint::AmplificationLimited,
+    };
+    let frames_left: usize = kani::any();
+    kani::assume(frames_left <= 3);
+    let mut ctx = RecCtx::new(now(), constraint, frames_left, pn(200));
+    ctx.encode_new = encode;
+
+    reg.on_transmit(&mut ctx);
+
+    let mut k = 0;
+    let mut i = 0;
+    while i < n {
+        let e = &pre.e[i];
+        // new data only without constraint, lost data also during fast retransmission
+        let wants = (e.st == S_ISSUE && c == 0) || (e.st == S_REISSUE && c <= 1);
+        let info = &reg.registered_ids[i];
+        if wants && k < frames_left {
+            assert!(ctx.n > k && ctx.kind[k] == K_NEW_CONNECTION_ID);
+            // the frame announces this ID under its own sequence number ...
+            assert!(ctx.a[k] == e.seq as u64);
+            // ... carries the current retire_prior_to, which never exceeds the ID being issued
+            // (RFC 9000 19.15: a larger value is a FRAME_ENCODING_ERROR at the peer)
+            assert!(ctx.b[k] == pre.rpt as u64);
+            assert!(ctx.b[k] <= ctx.a[k]);
+            assert!(ctx.a[k] < pre.next as u64);
+            if encode {
+                // on the wire: 0x18, seq, retire_prior_to, length, connection ID, reset token
+                let raw = &ctx.raw[k];
+                let len = ctx.raw_len[k];
+                assert!(raw[0] == 0x18);
+                let (s, sl) = crate::verif_support::ref_varint(&raw[1..len]).unwrap();
+                let (r, rl) = crate::verif_support::ref_varint(&raw[1 + sl..len]).unwrap();
+                assert!(s == e.seq as u64 && r == pre.rpt as u64);
+                let at = 1 + sl + rl;
+                assert!(raw[at] as usize == e.idl && len == at + 1 + e.idl + 16);
+                let b: usize = kani::any();
+                kani::assume(b < e.idl);
+                assert!(raw[at + 1 + b] == e.idb[b]);
+                let t: usize = kani::any();
+                kani::assume(t < 16);
+                assert!(raw[at + 1 + e.idl + t] == e.tok[t]);
+            }
+            assert!(info.status == PendingAcknowledgement(pn(200)));
+            assert!(info.sequence_number == e.seq && info.id == e.id() && token_of(info) == e.tokw);
+            k += 1;
+        } else {
+            assert!(unchanged(info, e));
+        }
+        i += 1;
+    }
+    // nothing else is written: in particular no frame for an ID that is active, retired or unknown
+    assert!(ctx.n == k);
+    assert!(reg.registered_ids.len() == n);
+    assert!(reg.retire_prior_to == pre.rpt && reg.next_sequence_number == pre.next);
+    kani::cover!(k == 2, "two NEW_CONNECTION_ID frames in one packet");
+    kani::cover!(k == 1 && frames_left == 1, "packet full after one frame: the second ID stays pending");
+    kani::cover!(k == 1 && c == 1, "reissue during fast retransmission");
+    kani::cover!(k >= 1 && pre.rpt > 0, "frame carries a non-zero retire_prior_to");
+    assert_inv(&reg);
     core::mem::forget(reg);
 }
 
-#[cfg_attr(kani, kani::proof)]
-#[cfg_attr(kani, kani::unwind(6))]
-#[cfg_attr(kani, kani::stub(LocalIdMap::try_insert, stub_try_insert))]
-#[cfg_attr(kani, kani::stub(LocalIdMap::remove, stub_remove))]
-#[cfg_attr(kani, kani::stub(LocalIdRegistry::unregister_expired_ids, stub_unregister_expired_ids))]
-fn verif_probe_c() {
-    let (reg, pre) = any_registry(2);
-    let t = reg.active_id_count.get(&reg.registered_ids);
-    kani::cover!(reg.registered_ids.len() == 2 && pre.rpt > 0 && t == 1, "ran");
+// ================================================================ C13-O2e: on_retire_connection_id
+fn retire_body(n: usize) {
+    let (mut reg, pre) = any_registry(n);
+    let seq: u32 = kani::any();
+    // the packet carrying the frame is addressed with one of our IDs (or with an ID not registered)
+    let j: usize = kani::any();
+    kani::assume(j <= n);
+    let dcid = if j < n {
+        pre.e[if j < n { j } else { 0 }].id()
+    } else {
+        connection::LocalId::try_from_bytes(&[0xCC; 6]).unwrap()
+    };
+    let r3: u8 = kani::any();
+    kani::assume(r3 < 3);
+    let rtt_us: u64 = match r3 {
+        0 => 0,
+        1 => 333,
+        _ => 100_000,
+    };
+    let now = now();
+    let before = pre.limit - pre.active();
+
+    let r = reg.on_retire_connection_id(seq, &dcid, Duration::from_micros(rtt_us), now);
+
+    let mut hit: Option<usize> = None;
+    let mut i = 0;
+    while i < n {
+        if hit.is_none() && pre.e[i].seq == seq && pre.e[i].st != S_REMOVAL {
+            hit = Some(i);
+        }
+        i += 1;
+    }
+    let mut changed: Option<usize> = None;
+    if seq >= pre.next {
+        // a sequence number never issued
+        assert!(r == Err(LocalIdRegistrationError::InvalidSequenceNumber));
+        kani::cover!(true, "RETIRE_CONNECTION_ID for a sequence number never issued is refused");
+    } else {
+        match hit {
+            Some(h) if j == h => {
+                // retiring the ID the packet is addressed with
+                assert!(r == Err(LocalIdRegistrationError::InvalidSequenceNumber));
+                kani::cover!(true, "retiring the packet's own destination ID is refused");
+            }
+            Some(h) => {
+                assert!(r.is_ok());
+                changed = Some(h);
+                kani::cover!(pre.e[h].st == S_RETIRING, "peer confirms a retirement we asked for");
+                kani::cover!(pre.e[h].st == S_ACTIVE, "peer retires an active ID on its own");
+                kani::cover!(pre.e[h].st <= S_ACK, "peer retires an ID whose NEW_CONNECTION_ID is unacknowledged");
+            }
+            None => {
+                assert!(r.is_ok());
+                kani::cover!(true, "duplicate / already removed: ignored");
+            }
+        }
+    }
+    let mut i = 0;
+    while i < n {
+        let info = &reg.registered_ids[i];
+        let e = &pre.e[i];
+        if changed == Some(i) {
+            // kept routable for 3 RTT (reordered packets), then removed
+            assert!(info.status == PendingRemoval(t_us(NOW_US + 3 * rtt_us)));
+            assert!(info.sequence_number == e.seq && info.id == e.id() && info.retirement_time == e.rt_ts);
+        } else {
+            assert!(unchanged(info, e));
+        }
+        i += 1;
+    }
+    assert!(reg.registered_ids.len() == n);
+    assert!(reg.retire_prior_to == pre.rpt && reg.next_sequence_number == pre.next);
+    // a replacement is asked for exactly when an ID that counted towards the limit went away
+    let freed = matches!(changed, Some(h) if pre.e[h].st <= S_ACTIVE);
+    let after = before + if freed { 1 } else { 0 };
+    assert!(reg.connection_id_interest() == if after > 0 { connection::id::Interest::New(after) } else { connection::id::Interest::None });
+    assert_inv(&reg);
     core::mem::forget(reg);
 }
+
+// ================================================================ C13-O2f: on_packet_ack / on_packet_loss
+fn ack_loss_body(n: usize) {
+    let (mut reg, pre) = any_registry(n);
+    let lo: u8 = kani::any();
+    let hi: u8 = kani::any();
+    kani::assume(lo <= hi);
+    let set = s2n_quic_core::packet::number::PacketNumberRange::new(pn(lo), pn(hi));
+    let lost: bool = kani::any();
+    if lost {
+        reg.on_packet_loss(&set);
+    } else {
+        reg.on_packet_ack(&set);
+    }
+    let mut i = 0;
+    while i < n {
+        let info = &reg.registered_ids[i];
+        let e = &pre.e[i];
+        if e.st == S_ACK && lo <= e.pnv && e.pnv <= hi {
+            assert!(info.sequence_number == e.seq && info.id == e.id() && info.retirement_time == e.rt_ts);
+            if lost {
+                // announced again, with the same sequence number and token
+                assert!(info.status == PendingReissue && token_of(info) == e.tokw);
+                kani::cover!(true, "lost NEW_CONNECTION_ID is queued for reissue");
+            } else {
+                assert!(info.status == Active && token_of(info) == 0);
+                kani::cover!(true, "acknowledged NEW_CONNECTION_ID activates the ID");
+            }
+        } else {
+            assert!(unchanged(info, e));
+        }
+        i += 1;
+    }
+    assert!(reg.registered_ids.len() == n);
+    assert!(reg.retire_prior_to == pre.rpt && reg.next_sequence_number == pre.next);
+    assert_inv(&reg);
+    core::mem::forget(reg);
+}
+
+// ================================================================ C13-O2g: handshake ID rotation
+fn handshake_body(n: usize) {
+    let (mut reg, pre) = any_registry(n);
+    reg.on_handshake_confirmed();
+    let mut i = 0;
+    while i < n {
+        let info = &reg.registered_ids[i];
+        let e = &pre.e[i];
+        if pre.rotate && e.seq == 0 && e.st <= S_ACTIVE {
+            // the peer is asked to retire the handshake ID; it stays routable until its own expiry
+            assert!(info.sequence_number == 0 && info.id == e.id() && info.retirement_time == e.rt_ts);
+            let removal = match e.rt {
+                Some(t) => Some(t_us(GRID_US[t as usize] + 30_000_000)),
+                None => None,
+            };
+            assert!(info.status == PendingRetirementConfirmation(removal));
+            assert!(reg.retire_prior_to >= 1);
+            kani::cover!(pre.rpt == 0, "handshake ID retired: retire_prior_to 0 -> 1");
+        } else {
+            assert!(unchanged(info, e));
+        }
+        i += 1;
+    }
+    let had = n > 0 && pre.e[0].seq == 0 && pre.e[0].st <= S_ACTIVE && pre.rotate;
+    assert!(reg.retire_prior_to == if had && pre.rpt == 0 { 1 } else { pre.rpt });
+    assert!(reg.registered_ids.len() == n && reg.next_sequence_number == pre.next);
+    kani::cover!(!pre.rotate, "rotation disabled: nothing happens");
+    kani::cover!(pre.rotate && !had, "handshake ID already retired or gone");
+    assert_inv(&reg);
+    core::mem::forget(reg);
+}
+
+// ---------------------------------------------------------------- harnesses
+macro_rules! local_harness {
+    ($name:ident, $unwind:expr, $body:expr) => {
+        #[cfg_attr(kani, kani::proof)]
+        #[cfg_attr(kani, kani::unwind($unwind))]
+        #[cfg_attr(kani, kani::stub(LocalIdMap::try_insert, stub_try_insert))]
+        #[cfg_attr(kani, kani::stub(LocalIdMap::remove, stub_remove))]
+        fn $name() {
+            $body;
+        }
+    };
+}
+macro_rules! local_harness_cut {
+    ($name:ident, $unwind:expr, $body:expr) => {
+        #[cfg_attr(kani, kani::proof)]
+        #[cfg_attr(kani, kani::unwind($unwind))]
+        #[cfg_attr(kani, kani::stub(LocalIdMap::try_insert, stub_try_insert))]
+        #[cfg_attr(kani, kani::stub(LocalIdMap::remove, stub_remove))]
+        #[cfg_attr(kani, kani::stub(LocalIdRegistry::unregister_expired_ids, stub_unregister_expired_ids))]
+        fn $name() {
+            $body;
+        }
+    };
+}
+
+local_harness!(verif_local_id_register_n1, 18, register_body(1));
+local_harness!(verif_local_id_register_n2, 18, register_body(2));
+local_harness_cut!(verif_local_id_timeout_n2, 6, timeout_body(2));
+local_harness_cut!(verif_local_id_timeout_n3, 6, timeout_body(3));
+local_harness!(verif_local_id_expire_a, 6, expire_body([K_GONE_REMOVAL, K_LIVE, K_KEEP_REMOVAL]));
+local_harness!(verif_local_id_expire_b, 6, expire_body([K_LIVE, K_GONE_RETIRING, K_GONE_REMOVAL]));
+local_harness!(verif_local_id_expire_c, 6, expire_body([K_KEEP_RETIRING, K_GONE_REMOVAL, K_LIVE]));
+local_harness!(verif_local_id_transmit_n2, 6, transmit_body(2, false));
+local_harness!(verif_local_id_transmit_n3, 6, transmit_body(3, false));
+local_harness!(verif_local_id_transmit_wire_n2, 10, transmit_body(2, true));
+local_harness!(verif_local_id_retire_n2, 8, retire_body(2));
+local_harness!(verif_local_id_ack_loss_n2, 6, ack_loss_body(2));
+local_harness!(verif_local_id_handshake_n2, 6, handshake_body(2));
 
 // ---- generated by tools/fixup.py: native replay entry ----
 #[cfg(not(kani))]
 #[test]
 fn verif_replay() {
     kani::replay(&[
+        ("verif_local_id_register_n1", verif_local_id_register_n1),
+        ("verif_local_id_register_n2", verif_local_id_register_n2),
+        ("verif_local_id_timeout_n2", verif_local_id_timeout_n2),
         ("verif_local_id_timeout_n3", verif_local_id_timeout_n3),
-        ("verif_probe_registry_new", verif_probe_registry_new),
-        ("verif_probe_b", verif_probe_b),
-        ("verif_probe_c", verif_probe_c),
+        ("verif_local_id_expire_a", verif_local_id_expire_a),
+        ("verif_local_id_expire_b", verif_local_id_expire_b),
+        ("verif_local_id_expire_c", verif_local_id_expire_c),
+        ("verif_local_id_transmit_n2", verif_local_id_transmit_n2),
+        ("verif_local_id_transmit_n3", verif_local_id_transmit_n3),
+        ("verif_local_id_transmit_wire_n2", verif_local_id_transmit_wire_n2),
+        ("verif_local_id_retire_n2", verif_local_id_retire_n2),
+        ("verif_local_id_ack_loss_n2", verif_local_id_ack_loss_n2),
+        ("verif_local_id_handshake_n2", verif_local_id_handshake_n2),
     ]);
 }
